@@ -6,6 +6,7 @@ import (
 	"encoding/json"
 	"flag"
 	"fmt"
+	"golang.org/x/tools/go/ssa"
 	"os"
 	"path/filepath"
 	"runtime/debug"
@@ -29,6 +30,35 @@ func main() {
 		os.Exit(mutantCmd(os.Args[2:]))
 	case "explore":
 		explore(os.Args[2:])
+	case "fieldmaps":
+		// development aid: every store of a config-literal field in functions matching the prefix, with its source path
+		p, err := an.Load("/repo", an.BuildConfig{}, nil)
+		if err != nil {
+			fmt.Println(err)
+			os.Exit(2)
+		}
+		for _, fn := range p.FnsMatching(os.Args[2]) {
+			if fn.Blocks == nil || p.IsTestFile(fn.Pos()) {
+				continue
+			}
+			an.Instrs(fn, func(in ssa.Instruction) {
+				st, ok := in.(*ssa.Store)
+				if !ok {
+					return
+				}
+				typ, f, _, ok := an.FieldOf(st.Addr)
+				if !ok || typ == "" {
+					return
+				}
+				src := "?" + st.Val.Name()
+				if ap, ok := an.AccessPath(st.Val); ok {
+					src = ap
+				} else if k, ok := st.Val.(*ssa.Const); ok {
+					src = "const " + k.String()
+				}
+				fmt.Printf("%s\t%s.%s\t<- %s\n", an.FnKey(fn), typ, f, src)
+			})
+		}
 	case "fns":
 		// development aid: every repository function with its file and size
 		p, err := an.Load("/repo", an.BuildConfig{}, nil)
